@@ -49,11 +49,33 @@ def _init_worker():
         pass
 
 
+class _CaseTimeout(BaseException):
+    pass
+
+
+def _on_alarm(signum, frame):
+    raise _CaseTimeout()
+
+
+
+
 def _call(args):
-    modname, fname, case = args
+    """One case on the real code, under a watchdog: a call of the library that does not return within the limit is reported
+    (a rejection of the run: every property presupposes that the call returns), it never hangs the check."""
+    import signal
+    modname, fname, case = args[:3]
+    limit = args[3] if len(args) > 3 else float(os.environ.get("VERIF_CASE_TIMEOUT", "150") or 150)
     try:
         mod = importlib.import_module(modname)
-        return getattr(mod, fname)(case)
+        old = signal.signal(signal.SIGALRM, _on_alarm)
+        signal.setitimer(signal.ITIMER_REAL, limit)
+        try:
+            return getattr(mod, fname)(case)
+        finally:
+            signal.setitimer(signal.ITIMER_REAL, 0)
+            signal.signal(signal.SIGALRM, old)
+    except _CaseTimeout:
+        return {"id": case.get("id"), "__timeout__": limit, "given": case.get("given", {}), "events": case.get("events", [])}
     except MachineryError as e:
         return {"id": case.get("id"), "__machinery__": str(e)}
     except Exception:
@@ -118,11 +140,27 @@ class Ctx:
         if not cases:
             return []
         ctx = mp.get_context("fork")
+        out, hung = [], []
         with ctx.Pool(min(procs, max(1, len(cases))), initializer=_init_worker) as pool:
-            out = pool.map(_call, [(modname, fname, c) for c in cases], chunksize=chunksize)
+            for o in pool.imap(_call, [(modname, fname, c) for c in cases], chunksize=chunksize):
+                if isinstance(o, dict) and "__timeout__" in o:
+                    hung.append(o)
+                    if len(hung) >= 4:
+                        pool.terminate()          # enough evidence: the remaining cases of this family are not run
+                        break
+                    continue
+                out.append(o)
         for o in out:
             if isinstance(o, dict) and "__machinery__" in o:
                 raise MachineryError("driver failure on case %s:\n%s" % (o.get("id"), o["__machinery__"]))
+        byid = {c["id"]: c for c in cases}
+        for o in hung:
+            self.mismatches.append({"key": "call/returns_within_the_case_time_limit/%s" % modname, "case": byid.get(o["id"], o), "ev": 0,
+                                    "detail": "no answer after %ss" % o["__timeout__"], "module": None, "cfg": None, "driver": modname,
+                                    "exec_fn": fname, "family": "watchdog"})
+        if hung:
+            self.notes.append("%d case(s) did not return within %ss (watchdog); %d case(s) of the family were not run"
+                              % (len(hung), hung[0]["__timeout__"], len(cases) - len(out) - len(hung)))
         return out
 
     # ---------------------------------------------------------------- stage C
@@ -330,6 +368,14 @@ def replay(prop, path):
         rp = json.load(f)
     ctx = Ctx(prop, rp.get("tier", "quick"), rp.get("seed", 0))
     case = rp["case"]
+    if rp.get("module") is None:                 # a watchdog rejection: the case did not return
+        bind_repo()
+        o = _call((rp["driver"], rp["exec_fn"], case))
+        if isinstance(o, dict) and "__timeout__" in o:
+            print("REPLAY: property=%s key=%s still rejected (no answer after %ss)" % (prop, rp["key"], o["__timeout__"]))
+            return 1
+        print("REPLAY: property=%s key=%s accepted on the current tree (the case returns)" % (prop, rp["key"]))
+        return 0
     if rp.get("driver") and rp.get("exec_fn"):
         bind_repo()
         mod = importlib.import_module(rp["driver"])
